@@ -88,6 +88,12 @@ func runOne(b *BatchResult, a *runArgs, run uint64) {
 			p = wgParams{nRandom: 48, tinyPerms: true}
 		}
 		wgRunOne(b, a.Property, a.Seed, run, p)
+	case "plainsim":
+		n := 6
+		if a.Tier == "thorough" {
+			n = 40
+		}
+		plainRunOne(b, a.Property, a.Seed, run, n)
 	default:
 		fmt.Fprintln(os.Stderr, "worker: unknown engine", a.Engine)
 		os.Exit(2)
@@ -142,28 +148,17 @@ func cmdReplay(args []string) {
 // replayOnce re-executes a violation's workload and schedule and returns the
 // mismatches of its property.
 func replayOnce(v *Violation) ([]mismatch, string) {
-	switch v.Engine {
-	case "wgsim":
-		var wl wlWG
-		if err := json.Unmarshal(v.Workload, &wl); err != nil {
-			fmt.Fprintln(os.Stderr, "worker: bad workload:", err)
-			os.Exit(2)
+	c := ctxFor(v.Engine, v.Workload)
+	cfg := v.Sched
+	cfg.Generative = false
+	mm, st, _ := c.check(cfg)
+	var out []mismatch
+	for _, x := range mm {
+		if x.prop == v.Property {
+			out = append(out, x)
 		}
-		c := newWGCtx(&wl)
-		cfg := v.Sched
-		cfg.Generative = false
-		mm, st, _ := c.check(cfg)
-		var out []mismatch
-		for _, x := range mm {
-			if x.prop == v.Property {
-				out = append(out, x)
-			}
-		}
-		return out, fpString(st.Fingerprint)
 	}
-	fmt.Fprintln(os.Stderr, "worker: unknown engine", v.Engine)
-	os.Exit(2)
-	return nil, ""
+	return out, fpString(st.Fingerprint)
 }
 
 func replayViolation(v *Violation) *replayResult {
